@@ -37,6 +37,14 @@ LEVEL = {
             "V/dV entries and the basis transformation are tied to the Python by correspondence; Shin-Metiu, the 5-D vibronic model and Subotnik2D are "
             "covered by the convergence-checked finite-difference oracle only (stated)", "7 C05", NOTE,
             "Lean 4 theorems (matrix perturbation algebra, HasDerivAt per model entry) + correspondence + finite-difference oracle"),
+    "C06": ("proof", "Lean theorems, any N and dimension: after the sign fix every column has non-negative overlap with its reference column and the "
+            "fix only multiplies columns by +-1; flipping columns by signs s multiplies (C^T dV C)_pq by s_p s_q, hence forces are invariant and "
+            "couplings / force-matrix entries change by that factor only (magnitudes invariant) - so energies, forces and coupling magnitudes depend "
+            "on the position alone given that eigh is a function of V(x); update() rebinds every result attribute of the new object to a fresh "
+            "location, so no earlier result is written. Tied to the code by sign-fix correspondence with captured eigh and by update scripts on one "
+            "shared model object (smooth paths, jumps, revisits, interleaved continuations) checked for overlaps, history independence, bit-stability "
+            "of earlier results and absence of shared arrays", "7 C06", NOTE,
+            "Lean 4 theorems (Finset algebra of the basis rotation, location model of update) + script oracle"),
     "C07": ("proof", "Lean theorems, exact, any dimension/state count/force field/number of steps: velocity Verlet is time-symmetric; reversing velocities "
             "conjugates the midpoint generator; the code's step matrix equals exp(-i dt W) for ANY unitary eigendecomposition (independent of eigh's "
             "choice); the electronic step with the reversed generator undoes the step on the conjugated state; nuclear+electronic step and whole "
